@@ -59,7 +59,9 @@ def compare_split(s0, s1, ends, obs, thermal=False):
     """End quantities of an original pipe vs first/last series pipe, section means vs means."""
     diffs = []
     P0, P1 = s0.get("pipe", {}), s1.get("pipe", {})
-    from pvmon.compare import close
+    from pvmon.compare import close, noise_level
+    # flows that create no resolvable friction are undetermined (see pvmon.compare): their size is the absolute slack of all flows
+    zf = max(1e-9, 2 * max(noise_level(s0), noise_level(s1)))
     for name, subs in ends.items():
         a = P0[name]
         first, last = P1[subs[0]], P1[subs[-1]]
@@ -68,15 +70,22 @@ def compare_split(s0, s1, ends, obs, thermal=False):
                  ("t_outlet_k", first if (thermal and a["mdot_from_kg_per_s"] < 0) else last)]
         if "v_from_m_per_s" in a:
             pairs += [("v_from_m_per_s", first), ("normfactor_from", first), ("v_to_m_per_s", last), ("normfactor_to", last)]
+        noflow = abs(a["mdot_from_kg_per_s"]) <= zf
         for col, row in pairs:
-            if not close(a[col], row[col], 1e-7, 1e-9):
+            at, rt = 1e-9, 1e-7
+            if col.startswith("mdot_"):
+                at = zf
+            elif col.startswith("v_"):
+                if noflow:
+                    continue
+                rt = 1e-7 + 4 * zf / max(abs(a["mdot_from_kg_per_s"]), 1e-300)
+            if not close(a[col], row[col], rt, at):
                 diffs.append(("pipe", name, col, "A=%r series=%r" % (a[col], row[col])))
-        noflow = abs(a["mdot_from_kg_per_s"]) <= 1e-9
         for col in ("lambda", "reynolds", "v_mean_m_per_s"):
-            if noflow and col != "v_mean_m_per_s":
+            if noflow:
                 continue
             mean = sum(P1[s][col] for s in subs) / len(subs)
-            rt = 1e-7 + 4e-9 / max(abs(a["mdot_from_kg_per_s"]), 1e-300)
+            rt = 1e-7 + 4 * zf / max(abs(a["mdot_from_kg_per_s"]), 1e-300)
             if not close(a[col], mean, rt, 1e-9):
                 diffs.append(("pipe", name, col, "A=%r mean of series=%r" % (a[col], mean)))
         obs.count("split_pipes_compared")
